@@ -20,6 +20,7 @@ type SpecEnv struct {
 	oldHeap  map[string]*Term
 	oldAlloc *Term
 	inOld    bool
+	inPre    bool
 	heapOverride map[string]*Term // evaluate against this heap instead of the current one
 	depth    int
 }
@@ -167,6 +168,11 @@ func (ex *Executor) evalIdent(name string, env *SpecEnv) (Val, error) {
 				}
 				v := ex.load(env.st, l.v)
 				return v, nil
+			}
+			if env.inPre && env.st != nil && env.st.segLocals != nil && env.fr.unit {
+				if v, ok := env.st.segLocals[name]; ok {
+					return v, nil
+				}
 			}
 			return l.v, nil
 		}
@@ -594,6 +600,7 @@ func (ex *Executor) evalCallSpec(e *SExpr, env *SpecEnv) (Val, error) {
 	case "pre":
 		// value at the start of the current segment (function entry or loop head)
 		c := *env
+		c.inPre = true
 		if env.st != nil && env.st.segHeap != nil {
 			c.heapOverride = env.st.segHeap
 		}
